@@ -41,34 +41,45 @@ fn input(spec: &str) -> (SchemaRef, Vec<RecordBatch>) {
     make_batches(spec, None)
 }
 
-/// drive the OCF writer over `sink`; `marks` receives the sink length after the header and after each batch
+fn is_soe(spec: &str) -> bool {
+    spec.split(':').nth(4) == Some("1")
+}
+
+/// drive the OCF (or, 5th spec field = 1, single-object-encoding) writer over `sink`; `marks`
+/// receives the sink length after the header and after each batch
 fn drive_writer(spec: &str, sink: FaultSink, marks: &mut Vec<usize>, out: &mut Outcome) -> Result<(), String> {
+    use arrow_avro::writer::format::AvroSoeFormat;
     let (schema, batches) = input(spec);
-    let mut w = WriterBuilder::new(schema.as_ref().clone()).build::<_, AvroOcfFormat>(sink.clone()).map_err(|e| e.to_string())?;
-    marks.push(sink.data().len());
-    let mut res = Ok(());
-    for b in &batches {
-        res = w.write(b).map_err(|e| e.to_string());
-        marks.push(sink.data().len());
-        if res.is_err() {
-            break;
-        }
+    macro_rules! go {
+        ($fmt:ty) => {{
+            let mut w = WriterBuilder::new(schema.as_ref().clone()).build::<_, $fmt>(sink.clone()).map_err(|e| e.to_string())?;
+            marks.push(sink.data().len());
+            let mut res = Ok(());
+            for b in &batches {
+                res = w.write(b).map_err(|e| e.to_string());
+                marks.push(sink.data().len());
+                if res.is_err() {
+                    break;
+                }
+            }
+            if res.is_ok() {
+                res = w.finish().map_err(|e| e.to_string());
+            }
+            if res.is_err() {
+                // the caller finalises anyway (cleanup path / retry)
+                out.accepted_at_error = Some(sink.data().len());
+                if w.finish().is_ok() {
+                    out.later_ok.push("finish#1".into());
+                }
+                if w.finish().is_ok() {
+                    out.later_ok.push("finish#2".into());
+                }
+            }
+            sink.mark_done();
+            res
+        }};
     }
-    if res.is_ok() {
-        res = w.finish().map_err(|e| e.to_string());
-    }
-    if res.is_err() {
-        // the caller finalises anyway (cleanup path / retry)
-        out.accepted_at_error = Some(sink.data().len());
-        if w.finish().is_ok() {
-            out.later_ok.push("finish#1".into());
-        }
-        if w.finish().is_ok() {
-            out.later_ok.push("finish#2".into());
-        }
-    }
-    sink.mark_done();
-    res
+    if is_soe(spec) { go!(AvroSoeFormat) } else { go!(AvroOcfFormat) }
 }
 
 fn file(spec: &str) -> Arc<File> {
@@ -208,6 +219,18 @@ fn run_avrowf(t: &[&str], fails: &mut Fails) -> String {
     let res = drive_writer(spec, sink.clone(), &mut m, &mut out);
     let data = sink.data();
     let accepted = sink.accepted(out.accepted_at_error);
+    if is_soe(spec) {
+        // deterministic output (no sync marker): byte-prefix check, no container to read back
+        let good = { let s2 = FaultSink::new(vec![], false); let mut m2 = vec![]; drive_writer(spec, s2.clone(), &mut m2, &mut Outcome::default()).expect("soe"); s2.data() };
+        if !is_prefix(&data[..accepted.min(data.len())], &good) {
+            fails.push(("not-a-prefix".into(), "sink content is not a prefix of the fault-free output".into()));
+        }
+        if (res.is_ok() || !out.later_ok.is_empty()) && data != good {
+            fails.push((if res.is_ok() { "ok-but-incomplete".to_string() } else { "kf:avro-ok-after-failed-write".to_string() },
+                format!("success reported but the sink holds {} bytes, the fault-free output has {}", data.len(), good.len())));
+        }
+        return format!("accepted={accepted} res={}", if res.is_ok() { "ok" } else { "err" });
+    }
     if !out.later_ok.is_empty() {
         // no later finish may report success unless the sink holds a complete container with all rows
         let (got, ok) = read_all(Cursor::new(data.clone()));
@@ -317,12 +340,13 @@ fn main() {
             let line = format!("C18 avrorf {spec} A 0 {}", good.len());
             emit(&mut sink, line, "op:avrorf fault:A nt");
         }
-        for _ in 0..n {
-            let spec = gen_spec(&mut rng, &SCHEMAS);
+        for i in 0..n {
+            // every other input through the single-object-encoding writer
+            let spec = if i % 2 == 1 { format!("{}:1", gen_spec(&mut rng, &SCHEMAS)) } else { gen_spec(&mut rng, &SCHEMAS) };
             let (_, trace) = fault_free_trace(&spec);
             for (sched, kind) in schedules_for(&trace) {
                 let line = format!("C18 avrowf {spec} {sched} {}", show_list(&trace));
-                emit(&mut sink, line, &format!("op:avrowf fault:{kind} nt"));
+                emit(&mut sink, line, &format!("op:avrowf fault:{kind} format:{} nt", if is_soe(&spec) { "soe" } else { "ocf" }));
             }
         }
     }
